@@ -87,7 +87,7 @@ CHECKS["C01"] = dict(
          "listed deviation class",
     design_ref="DESIGN.md §5 C01, §6 D1-D5, Appendix A/B",
     note=TB + ". partial: the step text -> sqlfluff tree (third-party grammars) is not modelled; UPDATE/MERGE/COPY/SELECT INTO are not "
-         "in the typed AST yet. Known findings D1, D2, D2w, D3, D4, D5, D7 (table lineage lost at specific syntactic positions).",
+         "in the typed AST yet. D1 repaired (4da7204). Known findings D2, D2w, D3, D4, D5, D7 (table lineage lost at specific syntactic positions).",
     technique="Lean 4 model + specification with proved dispatch lemmas; three-way differential (implementation / model / specification) "
               "on Lean-rendered SQL",
 )
